@@ -577,4 +577,170 @@ theorem displayShortest_case_witness :
   decide
 
 
+/-! ## 18. `ParseModelPath` and `model.ParseName` on the same input -/
+
+
+theorem splitFirst_none_all (p : UInt8 → Bool) (s : Bytes) (h : splitFirst p s = none) : ∀ c ∈ s, p c = false := by
+  induction s with
+  | nil => intro c hc; cases hc
+  | cons x xs ih =>
+    simp only [splitFirst] at h
+    split at h
+    · cases h
+    · rename_i hx
+      split at h
+      · cases h
+      · rename_i hrec
+        intro c hc
+        rcases List.mem_cons.mp hc with rfl | hc
+        · simpa using hx
+        · exact ih hrec c hc
+
+theorem cutTag_none (s : Bytes) (h1 : ∀ c ∈ s, c ≠ cSlash) (h2 : ∀ c ∈ s, c ≠ cColon) : cutTag s = (s, []) := by
+  unfold cutTag
+  rw [splitLast_none _ _ (fun c hc => by have := h1 c hc; have := h2 c hc; simp [*])]
+
+/-- `cutTag` when the last separator of the string is a `/`: nothing is cut -/
+theorem cutTag_slash (b a : Bytes) (h1 : ∀ c ∈ a, c ≠ cSlash) (h2 : ∀ c ∈ a, c ≠ cColon) :
+    cutTag (b ++ cSlash :: a) = (b ++ cSlash :: a, []) := by
+  unfold cutTag
+  rw [splitLast_append _ b a cSlash (by decide) (fun c hc => by have := h1 c hc; have := h2 c hc; simp [*])]
+  simp [cSlash, cColon]
+
+/-- **The two parsers of the legacy server agree on scheme-less input**: for every string without `://` that `ParseModelPath`
+    turns into four valid parts, `model.ParseName` accepts it too and reads exactly the same host / namespace / model / tag
+    (so `GetManifestPath` and `ParseName(..).Filepath()` address the same manifest).  With a scheme the two differ in what they
+    accept (`x://m` is a ModelPath with default host and namespace, an invalid Name) — monitored by L2 on accepted inputs. -/
+theorem cross_modelpath_partial (s : Bytes) (hs : cutScheme s = none)
+    (h : isFQM (parseModelPath s).toName = true) : parseName s = (parseModelPath s).toName := by
+  have hjoin := joinWith_splitOn cSlash s
+  unfold parseModelPath at h ⊢
+  simp only [hs] at h ⊢
+  rcases hps : splitOn cSlash s with _ | ⟨a, _ | ⟨b, _ | ⟨c, _ | ⟨d, rest⟩⟩⟩⟩
+  · exact absurd hps (splitOn_ne_nil _ _)
+  · -- one piece: [model[:tag]]
+    rw [hps] at hjoin
+    simp only [joinWith] at hjoin
+    subst hjoin
+    simp only [hps] at h ⊢
+    cases hsf : splitFirst (· == cColon) a with
+    | none =>
+      simp only [hsf, ModelPath.toName] at h ⊢
+      have p := fqParts_of_isFQM h
+      have hnc : ∀ c ∈ a, c ≠ cColon := fun c hc => by simpa using splitFirst_none_all _ _ hsf c hc
+      have hb : parseNameBare a = { model := a } := by
+        unfold parseNameBare
+        simp only [cutTag_none a p.mslash hnc, cutPromised_none a p.mslash]
+      rw [parseName, hb]
+      simp [merge, orElse, defaultName, sDefaultHost, sLibrary, sLatest]
+    | some v =>
+      obtain ⟨r, t, c⟩ := v
+      simp only [hsf, ModelPath.toName] at h ⊢
+      have p := fqParts_of_isFQM h
+      obtain ⟨e, hc⟩ := splitFirst_some _ _ _ _ _ hsf
+      have hcc : c = cColon := by simpa using hc
+      subst hcc
+      have htne : t.isEmpty = false := by simpa [List.isEmpty_iff] using p.tne
+      have hb : parseNameBare a = { model := r, tag := t } := by
+        rw [e]
+        unfold parseNameBare
+        simp only [cutTag_append r t p.mne p.tne p.tslash p.tcolon, cutPromised_none r p.mslash]
+      rw [parseName, hb]
+      simp [merge, orElse, defaultName, htne, sDefaultHost, sLibrary]
+  · -- two pieces: ns/model[:tag]
+    rw [hps] at hjoin
+    simp only [joinWith] at hjoin
+    subst hjoin
+    simp only [hps] at h ⊢
+    cases hsf : splitFirst (· == cColon) b with
+    | none =>
+      simp only [hsf, ModelPath.toName] at h ⊢
+      have p := fqParts_of_isFQM h
+      have hnc : ∀ c ∈ b, c ≠ cColon := fun c hc => by simpa using splitFirst_none_all _ _ hsf c hc
+      have hnsne : a.isEmpty = false := by simpa [List.isEmpty_iff] using p.nne
+      have hb : parseNameBare (a ++ cSlash :: b) = { ns := a, model := b } := by
+        unfold parseNameBare
+        simp only [cutTag_slash a b p.mslash hnc, cutPromised_append a b p.nne p.mne p.mslash, cutPromised_none a p.nslash]
+      rw [parseName, hb]
+      simp [merge, orElse, defaultName, hnsne, sDefaultHost, sLatest]
+    | some v =>
+      obtain ⟨r, t, c⟩ := v
+      simp only [hsf, ModelPath.toName] at h ⊢
+      have p := fqParts_of_isFQM h
+      obtain ⟨e, hc⟩ := splitFirst_some _ _ _ _ _ hsf
+      have hcc : c = cColon := by simpa using hc
+      subst hcc
+      have htne : t.isEmpty = false := by simpa [List.isEmpty_iff] using p.tne
+      have hnsne : a.isEmpty = false := by simpa [List.isEmpty_iff] using p.nne
+      have hb : parseNameBare (a ++ cSlash :: b) = { ns := a, model := r, tag := t } := by
+        rw [e]
+        have e2 : a ++ cSlash :: (r ++ cColon :: t) = (a ++ cSlash :: r) ++ cColon :: t := by simp
+        rw [e2]
+        unfold parseNameBare
+        simp only [cutTag_append (a ++ cSlash :: r) t (by simp) p.tne p.tslash p.tcolon,
+          cutPromised_append a r p.nne p.mne p.mslash, cutPromised_none a p.nslash]
+      rw [parseName, hb]
+      simp [merge, orElse, defaultName, htne, hnsne, sDefaultHost]
+  · -- three pieces: host/ns/model[:tag]
+    rw [hps] at hjoin
+    simp only [joinWith] at hjoin
+    subst hjoin
+    simp only [hps] at h ⊢
+    cases hsf : splitFirst (· == cColon) c with
+    | none =>
+      simp only [hsf, ModelPath.toName] at h ⊢
+      have p := fqParts_of_isFQM h
+      have hnc : ∀ x ∈ c, x ≠ cColon := fun x hx => by simpa using splitFirst_none_all _ _ hsf x hx
+      have hhne : a.isEmpty = false := by simpa [List.isEmpty_iff] using p.hne
+      have hnsne : b.isEmpty = false := by simpa [List.isEmpty_iff] using p.nne
+      have hb : parseNameBare (a ++ cSlash :: (b ++ cSlash :: c)) = { host := a, ns := b, model := c } := by
+        have e2 : a ++ cSlash :: (b ++ cSlash :: c) = (a ++ cSlash :: b) ++ cSlash :: c := by simp
+        rw [e2]
+        unfold parseNameBare
+        simp only [cutTag_slash (a ++ cSlash :: b) c p.mslash hnc,
+          cutPromised_append (a ++ cSlash :: b) c (by simp) p.mne p.mslash,
+          cutPromised_append a b p.hne p.nne p.nslash, cutScheme_none a p.hslash]
+      rw [parseName, hb]
+      simp [merge, orElse, defaultName, hhne, hnsne, sLatest]
+    | some v =>
+      obtain ⟨r, t, d⟩ := v
+      simp only [hsf, ModelPath.toName] at h ⊢
+      have p := fqParts_of_isFQM h
+      obtain ⟨e, hc⟩ := splitFirst_some _ _ _ _ _ hsf
+      have hcc : d = cColon := by simpa using hc
+      subst hcc
+      have htne : t.isEmpty = false := by simpa [List.isEmpty_iff] using p.tne
+      have hhne : a.isEmpty = false := by simpa [List.isEmpty_iff] using p.hne
+      have hnsne : b.isEmpty = false := by simpa [List.isEmpty_iff] using p.nne
+      have hb : parseNameBare (a ++ cSlash :: (b ++ cSlash :: c)) = { host := a, ns := b, model := r, tag := t } := by
+        rw [e]
+        have e2 : a ++ cSlash :: (b ++ cSlash :: (r ++ cColon :: t)) = ((a ++ cSlash :: b) ++ cSlash :: r) ++ cColon :: t := by simp
+        rw [e2]
+        unfold parseNameBare
+        simp only [cutTag_append ((a ++ cSlash :: b) ++ cSlash :: r) t (by simp) p.tne p.tslash p.tcolon,
+          cutPromised_append (a ++ cSlash :: b) r (by simp) p.mne p.mslash,
+          cutPromised_append a b p.hne p.nne p.nslash, cutScheme_none a p.hslash]
+      rw [parseName, hb]
+      simp [merge, orElse, htne, hhne, hnsne]
+  · -- four or more pieces: the repository stays empty, never valid
+    exfalso
+    simp only [hps] at h
+    have : splitFirst (· == cColon) ([] : Bytes) = none := rfl
+    simp only [this, ModelPath.toName] at h
+    have p := fqParts_of_isFQM h
+    exact p.mne rfl
+
+
+/-- without the guard the statement is false: `x://m` is a ModelPath with default host and namespace (manifest path of
+    `registry.ollama.ai/library/m:latest`), while `model.ParseName` rejects it -/
+theorem cross_modelpath_scheme_witness :
+    isFQM (parseModelPath [120, 58, 47, 47, 109]).toName = true ∧ isFQM (parseName [120, 58, 47, 47, 109]) = false ∧
+    cutScheme [120, 58, 47, 47, 109] ≠ none := by decide
+
+/-- non-vacuity of `cross_modelpath_partial`: `localhost:5000/n/m.1:v2` (a port in the host, so a `:` before the last `/`) -/
+example :
+    let s : Bytes := [108, 58, 53, 47, 110, 47, 109, 46, 49, 58, 118, 50]
+    cutScheme s = none ∧ isFQM (parseModelPath s).toName = true ∧
+    parseName s = { host := [108, 58, 53], ns := [110], model := [109, 46, 49], tag := [118, 50] } := by decide
+
 end OllamaVerif.C13
